@@ -27,7 +27,7 @@
 
     No proofs in this file. *)
 From Coq Require Import List Arith NArith ZArith Bool.
-Require Import RV.Model.Base.
+Require Import RV.Model.Base RV.Model.ListUpd.
 Import ListNotations.
 
 Record cfg := { c_m : nat (* KeyMajority *); c_early : bool }.
@@ -64,13 +64,6 @@ Definition new_attempt (c : cfg) (force : bool) : attempt :=
   {| a_force := force; a_next := 0; a_acquired := 0; a_failures := 0; a_loop_done := false;
      a_ret := RPending; a_tm := TArmed; a_mon := repeat_n MNone (nkeys c);
      a_exiting := 0; a_released := 0; a_cancelled := false |}.
-
-Fixpoint upd {A : Type} (n : nat) (x : A) (l : list A) : list A :=
-  match l, n with
-  | [], _ => []
-  | _ :: r, O => x :: r
-  | y :: r, S k => y :: upd k x r
-  end.
 
 Definition owner (k : option (nat * Z)) : option nat := match k with Some (a, _) => Some a | None => None end.
 
